@@ -187,6 +187,13 @@ def probe_permute(net, tree, cnt, rng):
     if node.is_leaf:
         tensor_dict[node.tid] = tensor_dict[node.tid].transpose(perm)
     try:
+        # trackaxes must still name the leg of the node tensor that carries each open leaf axis
+        sub = np.asarray(perform_tree_contraction(node, tensor_dict))
+        for (tid, ax), k in zip(node.openaxes, node.trackaxes):
+            d_leaf = net.net.tensors[tid].shape[ax]
+            if int(k) >= sub.ndim or sub.shape[int(k)] != d_leaf:
+                fails.append(("permute_axes:trackaxes-point-to-wrong-leg", "dimension %d" % d_leaf, "leg %d of %s" % (int(k), sub.shape)))
+                break
         cnt2 = np.asarray(perform_tree_contraction(tree, tensor_dict))
         expect = cnt.transpose(perm) if len(path) == 0 and not node.is_leaf else (cnt.transpose(perm) if len(path) == 0 else cnt)
         if cnt2.shape != expect.shape or not np.array_equal(cnt2, expect):
@@ -209,7 +216,7 @@ def run(ctx):
                      "shared open bonds, identity wires, negative ids) with small Gaussian-integer data; scaffolds: all binary trees with "
                      "both child orders for n<=3 (thorough: n<=5), random otherwise. non-trivial = >=2 tensors and one of hyper-bond, "
                      "multi-edge, shared open bond, self-trace")
-    ctx.lib(["TN/TNCheck", "TN/TNProofs"])
+    ctx.lib(["TN/TNCheck", "TN/TNEinsumSpec"])
     ctx.props()
     rng = ctx.rng
     cases = []
